@@ -354,6 +354,9 @@ var c01StmtAlphabet = []string{
 	"fs = func() { v }; keep = [fs(), fs() + 1]; v = 81; println(keep)", "s1 = \"str\"; func() { println(s1, [s1], len(s1)) }()", "func() { println(v == 2, v < w, -v, !(v == w), [v][0]) }()",
 	"func() { if v == 2 { println(\"two\") }; for v > 100 { break }; for e = [v] { println(e) } }()", "aa = [v, w]; func() { aa[0] = 5; println(aa) }(); println(aa)", "func() { m2 = {v: w}; println(m2, m2[v]) }()",
 	"print(v++, \" \"); print(v, \"\\n\")", "func() { x = v; x = x + 1; println(x, v) }()", "lst = [v]; v = 60; println(lst)",
+	"flag = v == 2; func() { if flag { println(\"yes\") } else { println(\"no\") } }()", "flag = true; n3 = 3; func() { for flag { flag = false; println(\"once\") }; for i = n3 { println(i) }; for n3 { print(\".\") } }()",
+	"lst2 = [v, w]; mp2 = {1: v}; func() { for e = lst2 { println(e) }; for kv = mp2 { println(kv.key, kv.value) }; println(len(lst2), first(lst2), rest(lst2)) }()",
+	"func(n) { m3 = {\"a\": n}; c3 = catch(n); a3 = [0]; a3[0] = n; m3.b = n; n = n + 1; println(m3, c3.value, a3) }(v)", "nl = nil; func() { println(nl == nil, !nl, nl) }()", "st = \"xy\"; func() { for ch = st { print(ch, \"-\") }; println(st[0], st[1:], st + st, st * 2) }()",
 	"println(v, w)", "println(p)", "error(\"boom\")", "x = v; v = 50; w = x", "del(w)", "w = [v, p][1]", "t = v; func up() { t = t + 1 }; up(); w = t",
 }
 
